@@ -442,12 +442,11 @@ def r4_comparisons(prog, rep: Report, ss: Cls):
             if A == B:
                 return True
             return a if (A, B) == ("A", "B") else b
-        rs = returns_of(fn.node)
-        if len(rs) != 1 or [st for st in fn.node.body if not isinstance(st, (ast.Return, ast.Expr))]:
-            raise NotAFormula(f"{fn.name} is not a single return")
         env = {fn.self_name: A, fn.params[1]: B}
 
         def ev(e) -> bool:
+            if isinstance(e, ast.Constant) and isinstance(e.value, bool):
+                return e.value
             if isinstance(e, ast.BoolOp):
                 vals = [ev(x) for x in e.values]
                 return all(vals) if isinstance(e.op, ast.And) else any(vals)
@@ -491,7 +490,25 @@ def r4_comparisons(prog, rep: Report, ss: Cls):
                     return expand(callee, env[e.func.value.id], env[e.args[0].id], a, b, depth + 1)
             raise NotAFormula(f"expression {src(e)}")
 
-        return ev(rs[0].value)
+        def body(stmts):
+            for st in stmts:
+                if isinstance(st, ast.Expr) and isinstance(st.value, ast.Constant):
+                    continue
+                if isinstance(st, ast.Return):
+                    if st.value is None:
+                        raise NotAFormula("bare return")
+                    return ev(st.value)
+                if isinstance(st, ast.If):
+                    r = body(st.body if ev(st.test) else st.orelse)
+                    if r is not None:
+                        return r
+                    continue
+                raise NotAFormula(f"statement {type(st).__name__} in {fn.name}")
+            return None
+        res_ = body(fn.node.body)
+        if res_ is None:
+            raise NotAFormula(f"{fn.name} can end without returning")
+        return res_
 
     def _free(key: str) -> bool:
         if key not in free_seen:
